@@ -144,6 +144,8 @@ where
                 // Note that other threads in the region may also be racing to initialize. While
                 // there is mutual exclusion built in, it remains up to us here to detect ordering
                 // issues and reinitialize if an outdated value was set.
+                #[cfg(folo_verif)]
+                crate::verif_hook::point("rc.latest.load");
                 let initial_value = self.global_state.latest_value.load();
 
                 let expected_generation = initial_value.generation;
@@ -230,6 +232,8 @@ where
     /// [1]: crate#consistency-guarantees
     pub fn set_global(&self, value: T) {
         // Numeric value is irrelevant, all that matters is the uniqueness.
+        #[cfg(folo_verif)]
+        crate::verif_hook::point("rc.gen.fetch_add");
         let generation = self
             .global_state
             .next_generation
@@ -237,6 +241,8 @@ where
 
         // The first thing we do is update the latest value in the global state. This ensures that
         // any new regional states that get initialized will get our latest updated value.
+        #[cfg(folo_verif)]
+        crate::verif_hook::point("rc.latest.store");
         self.global_state
             .latest_value
             .store(Arc::new(GenerationValue { generation, value }));
@@ -366,6 +372,8 @@ where
         // The entire purpose of that OnceLock is to ensure this Arc::new() happens
         // when the current thread is executing in the correct memory region, to place
         // the regional state of every region in that specific region.
+        #[cfg(folo_verif)]
+        crate::verif_hook::point("rc.slot.get_or_init");
         let regional_state = slot.get_or_init(|| Arc::new(RegionalState::new()));
 
         f(regional_state)
@@ -376,6 +384,8 @@ where
             // If it is already `None`, it will already get initialized on the next access.
             // It might already be in the process of being initialized by another thread, which
             // is fine - once initialized, it will by default be in the invalidated state.
+            #[cfg(folo_verif)]
+            crate::verif_hook::point("rc.invalidate.clear");
             if let Some(state) = slot.get() {
                 state.clear();
             }
@@ -437,6 +447,8 @@ where
     where
         F: FnOnce(&T) -> R,
     {
+        #[cfg(folo_verif)]
+        crate::verif_hook::point("rc.region.load");
         let reader = self.value.load();
 
         if let Some(ref value) = *reader
@@ -463,6 +475,8 @@ where
         // and wait for them to finish before we do anything.
 
         loop {
+            #[cfg(folo_verif)]
+            crate::verif_hook::point("rc.init.load");
             let reader = self.value.load();
 
             if let Some(ref value) = *reader {
@@ -470,6 +484,10 @@ where
 
                 match &**value {
                     RegionalValue::Initializing(manual_reset_event) => {
+                        #[cfg(folo_verif)]
+                        crate::verif_hook::block_until("rc.init.wait", &mut || {
+                            manual_reset_event.wait0()
+                        });
                         manual_reset_event.wait();
                         // Initialization by someone else has completed.
                         // Loop back and try to read again to see what we got.
@@ -485,6 +503,8 @@ where
             let attempt_signal = Arc::new(ManualResetEvent::new(EventState::Unset));
             let attempt = RegionalValue::<T>::Initializing(Arc::clone(&attempt_signal));
 
+            #[cfg(folo_verif)]
+            crate::verif_hook::point("rc.init.cas");
             let previous_value = self.value.compare_and_swap(reader, Some(Arc::new(attempt)));
 
             if !previous_value.is_none() {
@@ -511,9 +531,13 @@ where
             // the value that was set is of the expected generation. If not, everything
             // starts all over again for the current thread and it tries to re-initialize.
 
+            #[cfg(folo_verif)]
+            crate::verif_hook::point("rc.init.store");
             self.value.store(Some(Arc::new(new_value)));
 
             // We are done initializing. Notify all waiters that they can continue.
+            #[cfg(folo_verif)]
+            crate::verif_hook::point("rc.init.signal");
             attempt_signal.set();
 
             // Disarm the cleanup guard since initialization succeeded.
